@@ -20,7 +20,7 @@ func init() {
 
 func runC16(c *core.Ctx) {
 	runFixtures(c, "paging", "bounds")
-	c.Explain("Structural clauses of C16 decided from source, for every io/fs.File implementation whose ReadDir(n) computes its own page window (keyvalue.file, cache.dir; pure delegations such as os.file are inventoried): (R16.1) an io.EOF return exists, control-dependent on n > 0 and on a cursor/length comparison, and that comparison is evaluated before every nil-error return reachable with n > 0; (R16.3) every path to a nil-error return that slices the listing also stores the cursor, and every value stored to the cursor depends on the old cursor or on the listing length, never on n alone; (R16.2) every slice of the listing has bounds entailed by dominating guards (no panic when the cursor is at/after the end); (R16.4) by-name listings are sorted by construction: the helper ends in io/fs.ReadDir and every ReadDirFS implementation of the module returns entries from a sorting source; (R16.5) a failing ReadDirNames is returned wrapped in a *PathError. (R16.7) a sum that involves the caller's count n is formed only where n is already bounded from above by a dominating comparison of n itself (n < remaining): 'cursor + n' compared afterwards overflows for a huge n on a handle whose cursor is not zero, and the listing slice then panics — the difference constraints of R16.2 are over mathematical integers and do not see this. (R16.8) the mount table matches names on element boundaries, so a listed sibling of a mount point is Stat'ed in the file system that listed it. (R16.9) no failing return is reachable after a paging ReadDir advanced its cursor. (R16.10) = R10.3, (R16.11) = R07.4 under C16; (R16.12) a paging ReadDir stores old cursor + (high - low) of the returned window on every path. (R16.13) DirEntry.Type() is type bits only; (R16.14) = R10.4: cache directory pages are cut from the source listing of the same call. NOT claimed: exactly-once delivery across pages as a value-level fact, agreement of entries with Stat, mount-point children.")
+	c.Explain("Structural clauses of C16 decided from source, for every io/fs.File implementation whose ReadDir(n) computes its own page window (keyvalue.file, cache.dir; pure delegations such as os.file are inventoried): (R16.1) an io.EOF return exists, control-dependent on n > 0 and on a cursor/length comparison, and that comparison is evaluated before every nil-error return reachable with n > 0; (R16.3) every path to a nil-error return that slices the listing also stores the cursor, and every value stored to the cursor depends on the old cursor or on the listing length, never on n alone; (R16.2) every slice of the listing has bounds entailed by dominating guards (no panic when the cursor is at/after the end); (R16.4) by-name listings are sorted by construction: the helper ends in io/fs.ReadDir and every ReadDirFS implementation of the module returns entries from a sorting source; (R16.5) a failing ReadDirNames is returned wrapped in a *PathError. (R16.7) a sum that involves the caller's count n is formed only where n is already bounded from above by a dominating comparison of n itself (n < remaining): 'cursor + n' compared afterwards overflows for a huge n on a handle whose cursor is not zero, and the listing slice then panics — the difference constraints of R16.2 are over mathematical integers and do not see this. (R16.8) the mount table matches names on element boundaries, so a listed sibling of a mount point is Stat'ed in the file system that listed it. (R16.9) no failing return is reachable after a paging ReadDir advanced its cursor. (R16.10) = R10.3, (R16.11) = R07.4 under C16; (R16.12) a paging ReadDir stores old cursor + (high - low) of the returned window on every path. (R16.13) DirEntry.Type() is type bits only; (R16.14) = R10.4: cache directory pages are cut from the source listing of the same call. (R16.15) only the Lstat method of package os asks os.Lstat; (R16.16) = R08.7 under C16. NOT claimed: exactly-once delivery across pages as a value-level fact, agreement of entries with Stat, mount-point children.")
 	c.Assume("A2: io/fs.ReadDir and os.ReadDir return entries sorted by name", "A6: partial correctness")
 	c.RuleDoc("R16.1", "EOF exit exists and guards every nil-error return with n>0")
 	c.RuleDoc("R16.2", "listing slice bounds entailed by guards")
